@@ -187,10 +187,8 @@ package asn1parser
 //@   pure
 //@   ensures (err == nil) == (big(length) <= big(expectedLength))
 
-//@ func CalculateWholeTLVLength
-//@   props C07
-//@   pure
-//@   ensures 0 <= tagLength.Length.Length && tagLength.Length.Length <= 9223372036854775807 - 17 && 0 <= tagLength.Length.LengthSize && tagLength.Length.LengthSize <= 16 ==> ret == tagLength.Length.Length + tagLength.Length.LengthSize + 1
+// CalculateWholeTLVLength has no contract on purpose: it is small and loop-free, callers see its body (exact
+// wrap-around semantics of int(big.Int64()) + header), which keeps counterexamples replayable on the real code.
 
 //@ func TagLength.CalculateTLVLength
 //@   props C07
